@@ -128,6 +128,28 @@ impl<D> QueryInner<D> {
 //@|         final(entity_reactors).view() == q && final(commands).log() == old(commands).log().push(Queued::InsertReactors { entity: entity, reactors: er_insert_eff(er_default(), rtype, handle) })
 //@|     } else { final(entity_reactors).view() == q && final(commands).log() == old(commands).log() } }),
 
+// ---- register_reactors (react_commands.rs): mode -> handle -> the whole bundle is registered with that ONE handle (C07) -----
+//@enum src/react/react_commands.rs ReactorMode
+pub struct Res<'w, T> { pub value: &'w T }
+impl<'w, T> core::ops::Deref for Res<'w, T> { type Target = T; fn deref(&self) -> (r: &T) ensures *r == *self.value { self.value } }
+//@impl src/react/react_commands.rs impl ReactorMode
+//@fn src/react/react_commands.rs impl ReactorMode prepare ret=h
+//@| ensures *self == ReactorMode::Persistent ==> h == ReactorHandle::Persistent(sys_command),
+//@|         *self != ReactorMode::Persistent ==> (h matches ReactorHandle::AutoDespawn(s) && s.spec_entity() == sys_command.0),
+//@endimpl
+pub uninterp spec fn bundle_eff<T>(log: Seq<Queued>, triggers: T, handle: ReactorHandle) -> Seq<Queued>;
+// ReactionTriggerBundle::register_triggers: each member of the bundle registers itself with `handle` (tuple impls are macro-generated
+// and call the member's `register`, verified above for every trigger type); here: an uninterpreted effect of (bundle, handle). ASSUMED.
+pub trait ReactionTriggerBundle: Sized {
+    fn register_triggers(self, commands: &mut Commands, handle: &ReactorHandle)
+        ensures (*final(commands)).log() == bundle_eff((*old(commands)).log(), self, *handle), *final(*final(commands)) == *final(*old(commands));
+}
+//@fn src/react/react_commands.rs - register_reactors
+//@| ensures ({ let (triggers, syscommand, mode) = verif_in.0;
+//@|     exists|h: ReactorHandle| #![trigger bundle_eff(old(commands).log(), triggers, h)] final(commands).log() == bundle_eff(old(commands).log(), triggers, h)
+//@|         && (mode == ReactorMode::Persistent ==> h == ReactorHandle::Persistent(syscommand))
+//@|         && (mode != ReactorMode::Persistent ==> (h matches ReactorHandle::AutoDespawn(s) && s.spec_entity() == syscommand.0)) }),
+
 // ---- the triggers ---------------------------------------------------------------------------------------------------
 pub open spec fn one_syscall<S, I>(before: Seq<Queued>, after: Seq<Queued>, sys: S, input: I) -> bool { after == before.push(Queued::Syscall { sys: sys_id(sys), input: enc(input) }) }
 
